@@ -65,6 +65,10 @@ CHECKS = {
    "Frame condition FrameLaw of the TLA+ module Meta.tla evaluated by TLC on (source hash before, after, faulted) triples recorded from real conversions of read-only memory; workload from the TLC-enumerated Slots.tla product; the observer is memory protection (PROT_READ page + SetPanicOnFault)",
    "Every document of the Slots.tla product, ~950 repository examples and 2500 (60000) mutated documents is copied to the end of a read-only mapping followed by a guard page and converted under 32 rotating (thorough: all 256) configurations; any store, including an append into the spare capacity of a sub-slice of the source, faults and is recorded; 17 exported util functions are called on random and whole sub-slices of read-only inputs. 806k calls quick. The specification contributes the frame condition and the enumerated workload only, so the level is exploration.",
    "mmap/mprotect/SetPanicOnFault (self-tested at the start of every run); TLC, Json/IOUtils", "DESIGN.md 5/C12, 7"),
+ "C17": ("model_checking",
+   "TLA+ spec Table.tla (IsTable / Shape; negative control PadHeader) enumerated by TLC, every candidate concretised and converted; observed tables (HTML and AST) judged by the TLA+ acceptor TraceTable.tla together with the model's expectation",
+   "TLC enumerates every candidate with 0..2 (thorough: 0..3) header cells x 1..2 (3) delimiter columns with all alignment assignments x up to 2 body rows of 0..3 (4) cells x 4 pipe-edge spellings x 8 cell kinds (escaped pipe, pipe in code span, empty cells, lone pipe, doubled trailing pipe, padding spaces, inline content) x {top level, block quote, list item} x with/without preceding paragraph text = 241920 documents, converted with Table / GFM / all extensions; TLC checks: exactly one header row, every body row as wide as the header, HTML and AST agree, filled cells carry their column's alignment, mismatched header => no table, matching header => one table of the predicted shape. 20000 (300000) pipe/dash/colon soup documents and the repository examples go through the clauses that need no expectation.",
+   "TLC, Json/IOUtils; strict tokenizer; alignment rendering pinned to the align attribute", "DESIGN.md 3.6, 5/C17"),
 }
 
 NOT_YET = "check not built yet in this revision of /verif (see DESIGN.md section 5 for the planned TLA+ decision procedure)"
